@@ -282,3 +282,40 @@ Fixpoint err_eqb (a b : err) : bool :=
       && list_eqb str_eqb l1 l2 && ospan_eqb s1 s2
   | _, _ => false
   end.
+
+(** ** Observation of an error value through the public API (used by the correspondence check
+    and by values that hold a [darling::Result]). *)
+(** One node as seen from outside:
+    - [o_len]   : [Error::len()]
+    - [o_disp]  : [to_string()]
+    - [o_body]  : the kind's message (the part of [to_string()] before the location suffix;
+                  the harness recovers it as the prefix of [e.clone().at(MARK).to_string()])
+    - [o_locs]  : [None] when there is no location, else the locations joined by "/"
+    - [o_span]  : [explicit_span()] as a line/column range
+    - [o_kids]  : [into_iter()] one level, recursively observed ([[]] for a single error) *)
+Inductive obs : Type :=
+| Obs (o_len : N) (o_disp o_body : string) (o_locs : option string) (o_span : option span)
+      (o_kids : list obs).
+
+Definition locs_obs (l : list string) : option string :=
+  match l with [] => None | _ => Some (join "/" l) end.
+
+Fixpoint obs_of (e : err) : obs :=
+  match e with
+  | Leaf k l s => Obs 1 (display e) (kind_msg k) (locs_obs l) s []
+  | Multi es l s => Obs (len e) (display e) (body_msg e) (locs_obs l) s (map obs_of es)
+  end.
+
+Fixpoint obs_eqb (with_spans : bool) (a b : obs) : bool :=
+  match a, b with
+  | Obs n1 d1 b1 l1 s1 k1, Obs n2 d2 b2 l2 s2 k2 =>
+      N.eqb n1 n2 && str_eqb d1 d2 && str_eqb b1 b2 && option_eqb str_eqb l1 l2
+      && (if with_spans then ospan_eqb s1 s2 else true)
+      && (fix go (x y : list obs) : bool :=
+            match x, y with
+            | [], [] => true
+            | a' :: x', b' :: y' => obs_eqb with_spans a' b' && go x' y'
+            | _, _ => false
+            end) k1 k2
+  end.
+
